@@ -530,6 +530,85 @@ pub fn threads_manyrecs(ctx: &Ctx) -> Stats {
     })
 }
 
+/// results must not depend on the environment: RAYON_NUM_THREADS, the working directory, relative vs
+/// absolute paths, paths with spaces / unicode / extra dots, a locale
+pub fn env_paths(ctx: &Ctx) -> Stats {
+    let n = ctx.n(10, 150);
+    par_cases(ctx, n, |idx, st| {
+        let mut rng = Rng::keyed(ctx.seed, "c15.env_paths", idx);
+        let nrec = rng.usize(2, 30);
+        let recs = gen_records(&mut rng, nrec, 7, Some(20), 200, 0);
+        let sc = Scratch::new(ctx, "c15e");
+        let weird = sc.subdir("dir with space.fq \u{e9}\u{4e2d}");
+        let fasta = ser::to_fasta(&recs, &SerOpts::plain());
+        let abs_in = sc.write("plain.fa", &fasta);
+        let weird_in = format!("{}/my reads.v1.2.fa", weird);
+        std::fs::write(&weird_in, &fasta).unwrap();
+        st.case(true, mix(idx) ^ hash_bytes(&fasta));
+        let which = idx % 5;
+        st.class(["oligo", "oligo -c", "cgr -k", "cov", "min"][which as usize]);
+        // (args before -i/-o, result file relative to the -o path, ordered output?)
+        let base: (Vec<String>, &str, bool) = match which {
+            0 => (sv(&["comp", "oligo", "-k", "4", "-H"]), "", true),
+            1 => (sv(&["comp", "oligo", "-k", "3", "-c"]), "", true),
+            2 => (sv(&["comp", "cgr", "-k", "3", "-v", "16"]), "", true),
+            3 => (sv(&["cov", "-k", "8", "-s", "5", "-c", "6"]), "/kmers.vectors", true),
+            _ => (sv(&["min", "-m", "7", "-w", "11", "-p", "s2m"]), "", false),
+        };
+        let run = |st: &mut Stats, input: &str, output: &str, env: &[(&str, &str)], cwd: Option<&str>, what: &str| -> Option<Vec<u8>> {
+            let mut a = base.0.clone();
+            a.extend(sv(&["-i", input, "-o", output]));
+            let r = run_cli_env(ctx, &a, None, &CliLimits::default(), env, cwd);
+            if r.timed_out && !r.cpu_exceeded && !r.stalled {
+                st.inconclusive(format!("CLI watchdog: {}", r.describe()));
+                return None;
+            }
+            if !r.ok() {
+                st.violate("cli.env_paths.exit", format!("[{}] {} :: {}", what, a.join(" "), r.describe()), Json::obj().set("argv", Json::s(a.join(" "))).set("variant", Json::s(what)).set("records", recs_json(&recs)));
+                return None;
+            }
+            let full = match cwd {
+                Some(d) if !output.starts_with('/') => format!("{}/{}{}", d, output, base.1),
+                _ => format!("{}{}", output, base.1),
+            };
+            let d = std::fs::read(&full).unwrap_or_default();
+            Some(if base.2 { d } else { sorted_lines(&d).join(&b"\n"[..]) })
+        };
+        let reference = match run(st, &abs_in, &sc.path("ref.out"), &[], None, "baseline (absolute paths)") {
+            Some(d) => d,
+            None => return,
+        };
+        let dir = sc.dir.to_string_lossy().into_owned();
+        let variants: Vec<(&str, String, String, Vec<(&str, &str)>, Option<&str>)> = vec![
+            ("RAYON_NUM_THREADS=1", abs_in.clone(), sc.path("v1.out"), vec![("RAYON_NUM_THREADS", "1")], None),
+            ("RAYON_NUM_THREADS=5", abs_in.clone(), sc.path("v2.out"), vec![("RAYON_NUM_THREADS", "5")], None),
+            ("relative paths, cwd = scratch dir", "plain.fa".to_string(), "rel.out".to_string(), vec![], Some(dir.as_str())),
+            ("./ prefixed relative paths", "./plain.fa".to_string(), "./rel2.out".to_string(), vec![], Some(dir.as_str())),
+            ("directory and file names with spaces, dots and non-ASCII characters", weird_in.clone(), format!("{}/out put.v2.res", weird), vec![], None),
+            ("LC_ALL=de_DE.UTF-8 LANG=tr_TR.UTF-8", abs_in.clone(), sc.path("v5.out"), vec![("LC_ALL", "de_DE.UTF-8"), ("LANG", "tr_TR.UTF-8"), ("LC_NUMERIC", "de_DE.UTF-8")], None),
+            ("cwd = / (absolute paths)", abs_in.clone(), sc.path("v6.out"), vec![], Some("/")),
+        ];
+        for (what, input, output, env, cwd) in &variants {
+            match run(st, input, output, env, *cwd, what) {
+                None => return,
+                Some(d) => {
+                    if d != reference {
+                        st.violate(
+                            "cli.env_paths.changes_result",
+                            format!("[{}] gives a different result than the baseline invocation ({} vs {} bytes)", what, d.len(), reference.len()),
+                            Json::obj().set("subcommand", Json::s(base.0.join(" "))).set("variant", Json::s(*what)).set("records", recs_json(&recs)),
+                        );
+                        return;
+                    }
+                }
+            }
+        }
+        if idx % 3 == 0 {
+            st.sample(Json::obj().set("subcommand", Json::s(base.0.join(" "))).set("variants", Json::u(variants.len())).set("records", Json::u(recs.len())));
+        }
+    })
+}
+
 /// out-of-range values must be refused with a diagnostic and without producing output
 pub fn refusals(ctx: &Ctx) -> Stats {
     let mut st = Stats::new();
